@@ -65,6 +65,12 @@ type Director struct {
 	States  map[uint64]struct{} // distinct abstract states seen
 	Preempt int                 // number of steps that switched away from a ready task
 	stopped bool
+	// Forced, if set, is released next without consuming a decision (planned
+	// fault injection at an exact step).
+	Forced *verifsim.Task
+	// AtStep is called before the decision of every step with the step number
+	// about to be executed.
+	AtStep func(step int)
 	Decisions []Decision // non-default scheduling decisions (for replay files)
 }
 
@@ -176,6 +182,25 @@ func (d *Director) StepOnce() bool {
 	synctest.Wait()
 	if !d.RT.Settled() {
 		panic("verifsim: task still starting after quiescence")
+	}
+	if d.AtStep != nil {
+		d.AtStep(d.Step + 1)
+		synctest.Wait()
+	}
+	if f := d.Forced; f != nil {
+		d.Forced = nil
+		if f.State == verifsim.StReady {
+			d.Step++
+			d.Logf("%d %s @%s forced", d.Step, f.Name, f.Label)
+			d.last = f
+			d.RT.Release(f)
+			synctest.Wait()
+			d.noteState()
+			if d.AfterStep != nil && d.AfterStep() {
+				d.stopped = true
+			}
+			return true
+		}
 	}
 	d.ready = d.RT.Ready(d.ready)
 	// canonical order: the task that ran last first, then creation order
